@@ -49,11 +49,14 @@ def run(ctx, cases_override=None):
         allc = [v[0] for v in prints(gen, "CASE")]
         allc.sort(key=lambda c: json.dumps(c, sort_keys=True))
         total = len(allc)
+        rnd = random.Random(ctx.seed)
         if thorough:
-            cases = allc
+            # every never-present scenario (the P2 stratum) and a seeded sample of 150,000 of the others
+            cases = [c for c in allc if c["han"] == "never" and c["hbn"] == "never"]
+            rest = [c for c in allc if not (c["han"] == "never" and c["hbn"] == "never")]
+            cases += rnd.sample(rest, min(len(rest), 150000))
         else:
-            rnd = random.Random(ctx.seed)
-            # every scenario in which the metric has no sample at all (the P2 stratum: 2430 scenarios), plus a sample of
+            # every scenario in which the metric has no sample at all (the P2 stratum: 4,725 scenarios), plus a sample of
             # the rest stratified by selector shape, so that every shape sees every kind of history
             cases = [c for c in allc if c["han"] == "never" and c["hbn"] == "never"]
             by = {}
@@ -107,7 +110,7 @@ def run(ctx, cases_override=None):
         "distinct_nontrivial": sum(1 for r in trace if r["probes"] or r["problems"]),
         "rule": "scenarios are distinct (shape, history A, history B, uptime, rule set, exemption) tuples enumerated by TLC; "
                 "non-trivial = the check sent at least one probe or reported something (not skipped by a comment)",
-        "exhaustive": bool(thorough and cases_override is None),
+        "exhaustive": False,
         "scenario_space": total,
         "p1_antecedent_true": p1,
         "p2_antecedent_true": p2,
